@@ -192,6 +192,20 @@ def extra_scenarios(ctx, P, start):
     return scen
 
 
+def in_win(order, n, w):
+    """python rendering of Rtp!InWin, used only to name the class of a rejected event"""
+    if not order or order[0] != 1 or set(order) != set(range(1, n + 1)):
+        return False
+    got, oldest = set(), 1
+    for i in order:
+        if i not in got and i >= oldest + w:
+            return False
+        got.add(i)
+        while oldest in got:
+            oldest += 1
+    return True
+
+
 def diag(ev):
     """describe (not decide) what differs, for a stable signature"""
     c = ev["c"]
@@ -231,8 +245,8 @@ def diag(ev):
     pk = ev["pkts"]
     kind = "fu" if any(p["k"] == "fu" for p in pk) else ("frag" if len(pk) > len(exp) else "whole")
     o = ev["order"]
-    first = [x for i, x in enumerate(o) if x not in o[:i]]
-    arr = "inorder" if o == sorted(set(o)) else ("dup" if first == sorted(first) else "reordered")
+    kmax = 1 if (c == "aac" and ev["src"] == "lal") else max(npk(c, u["n"], ev["limit"]) for u in ev["us"])
+    arr = "inorder" if o == sorted(set(o)) else ("window" if in_win(o, len(pk), ev["max"] - kmax + 1) else "outside")
     why = units_diff(ev["out"]) or "model"
     return "Feed:%s:%s:%s:%s:%s" % (ev["src"], ev["codec"] if c == "raw" else c, kind, arr, why)
 
